@@ -157,14 +157,26 @@ def scalar_f(case):
     return USER_F[case["f"]]
 
 
+def _fscale(f, w):
+    """max |f(l)| over the spectrum, and never less than the sensitivity |l f'(l)| of f to a relative perturbation of an
+    eigenvalue (log 1 = 0 exactly, yet a rounding of the eigenvalue 1 moves it by eps: the error scale cannot be zero)"""
+    w = w.astype(complex)
+    fw = f(w)
+    with np.errstate(all="ignore"):
+        sens = np.abs(f(w * (1 + 1e-6)) - fw) / 1e-6
+    sens = sens[np.isfinite(sens)]
+    return fw, float(max(np.abs(fw[np.isfinite(fw)]).max(initial=0.0), sens.max(initial=0.0)))
+
+
 def reference(M, case, hermitian):
     f = scalar_f(case)
     if hermitian:
         w, V = np.linalg.eigh((M + M.conj().T) / 2)
-        return (V * f(w.astype(complex))) @ V.conj().T, 1.0, np.abs(f(w.astype(complex))).max(initial=0.0)
+        fw, fmax = _fscale(f, w)
+        return (V * fw) @ V.conj().T, 1.0, fmax
     w, V = np.linalg.eig(M)
-    fw = f(w.astype(complex))
-    return (V * fw) @ np.linalg.inv(V), float(np.linalg.cond(V)), np.abs(fw).max(initial=0.0)
+    fw, fmax = _fscale(f, w)
+    return (V * fw) @ np.linalg.inv(V), float(np.linalg.cond(V)), fmax
 
 
 def apply(ctx, A, case, n):
